@@ -104,17 +104,17 @@ Proof.
   rewrite N.mul_comm, N.div_add by discriminate. rewrite N.div_small by exact H. reflexivity.
 Qed.
 
-(* ( header & 0xff00 ) != 0 is "length byte != 0" (finite sweep over low byte x length byte) *)
-Definition len_sweep : bool :=
-  forallb (fun hl => forallb (fun len => Bool.eqb (N.land (hl + 256 * len) 65280 =? 0) (len =? 0)) (Nrange 256)) (Nrange 256).
-Lemma len_sweep_true : len_sweep = true.
+(* ( header & 0xff00 ) != 0 is "length byte != 0" (finite sweep over low byte x length byte; the
+   statement is kept in unfolded form so that the kernel never re-evaluates the sweep lazily) *)
+Definition len_test (hl len : N) : bool := Bool.eqb (N.land (hl + 256 * len) 65280 =? 0) (len =? 0).
+Lemma len_sweep_true : forallb (fun hl => forallb (len_test hl) (Nrange 256)) (Nrange 256) = true.
 Proof. vm_compute. reflexivity. Qed.
 
 Lemma mkhdr_len_land hl body :
   hl < 256 -> blen body < 256 -> (N.land (mkhdr hl body) 65280 =? 0) = (blen body =? 0).
 Proof.
-  intros H L. pose proof len_sweep_true as S. unfold len_sweep in S.
-  rewrite forallb_forall in S. specialize (S hl (In_Nrange 256 hl H)).
-  rewrite forallb_forall in S. specialize (S (blen body) (In_Nrange 256 _ L)).
-  apply eqb_prop in S. exact S.
+  intros H L. pose proof len_sweep_true as S.
+  rewrite forallb_forall in S. pose proof (S hl (In_Nrange 256 hl H)) as S1.
+  rewrite forallb_forall in S1. pose proof (S1 (blen body) (In_Nrange 256 _ L)) as S2.
+  apply eqb_prop in S2. exact S2.
 Qed.
